@@ -423,7 +423,9 @@ Proof.
       rewrite tok_reads_app, flush_reads. apply IH. }
     destruct (is_space c); rewrite tok_reads_app, flush_reads; cbn [app]; [apply IH|].
     rewrite tok_of_char_reads. apply IH.
-  - rewrite tok_reads_app, flush_reads. cbn [app]. rewrite tok_of_match_reads, IH. reflexivity.
+  - rewrite !tok_reads_app, flush_reads. cbn [app].
+    assert (B : tok_reads row (if fuses st m then [CBad] else []) = []) by (destruct (fuses st m); reflexivity).
+    rewrite B. cbn [app]. rewrite tok_of_match_reads, IH. reflexivity.
 Qed.
 
 (* every series term of an accepted statement of the subset is named at exactly the index written — nothing else is
